@@ -21,6 +21,9 @@ func (prop) Run(c core.Case) core.Outcome {
 	if c.Op == "big" {
 		return runBig(c)
 	}
+	if c.Op == "big3" { // gap closing round 3 (gap3.go)
+		return runBig3(c)
+	}
 	in, ops := ue.Unpack(c)
 	e := ue.Evaluate(in, ops)
 	out := core.Outcome{Class: e.Class(), Key: e.Key()}
@@ -39,6 +42,7 @@ func (prop) Gen(r *rand.Rand, tier string) []core.Case {
 	// held by files of every sectioned type (uefiedit/hostcases.go); the random pattern cases come last so
 	// that the stream of the older generators is the one C02 sees
 	fixed := append(ue.HostCases(), ue.SelCases()...)
+	fixed = append(fixed, gap3Cases(tier)...) // gap closing round 3: pad files with the extended header (gap3.go)
 	if tier == "thorough" {
 		cs := append(append(append(ue.ExhaustiveCases(3), append(ue.WrapperCases(), ue.TailCases()...)...), bigCases()...), fixed...)
 		return append(append(cs, ue.RandomCases(r, 20000, false)...), ue.SelRandomCases(r, 4000)...)
